@@ -16,6 +16,7 @@ import concurrent.futures as cf
 VERIF = os.path.dirname(os.path.dirname(os.path.abspath(__file__)))
 REPO = os.environ.get('VERIF_REPO', '/repo')
 BUILD = os.path.join(VERIF, '.build')
+OUT = os.environ.get('VERIF_OUT', VERIF)   # evidence/replays root (redirected when testing seeded faults)
 NCPU = int(os.environ.get('VERIF_JOBS', os.cpu_count() or 4))
 CXX = 'g++'
 SAN_CXX = 'clang++-14' if shutil.which('clang++-14') else ('clang++' if shutil.which('clang++') else 'g++')
@@ -294,7 +295,7 @@ class Report:
             cov['exhaustive'] = bool(exhaustive)
         unlisted = 0
         lines = []
-        os.makedirs(os.path.join(VERIF, 'replays', self.pid), exist_ok=True)
+        os.makedirs(os.path.join(OUT, 'replays', self.pid), exist_ok=True)
         kf = []
         for key in sorted(self.viol):
             if key in self.known:
@@ -302,7 +303,7 @@ class Report:
                 kf.append(key)
                 continue
             unlisted += 1
-            fn = os.path.join(VERIF, 'replays', self.pid, _safe(key) + '.json')
+            fn = os.path.join(OUT, 'replays', self.pid, _safe(key) + '.json')
             with open(fn, 'w') as f:
                 json.dump({'property': self.pid, 'key': key, 'occurrences': self.viol_n.get(key, 0),
                            'cases': self.viol[key], 'tier': self.tier, 'seed': self.seed,
@@ -313,8 +314,8 @@ class Report:
         ev = {'property_id': self.pid, 'tier': self.tier, 'seed': self.seed, 'level': self.level,
               'coverage': cov, 'assumptions': self.assumptions, 'wall_s': round(time.time() - self.t0, 2),
               'violations': unlisted}
-        os.makedirs(os.path.join(VERIF, 'evidence'), exist_ok=True)
-        with open(os.path.join(VERIF, 'evidence', self.pid + '.json'), 'w') as f:
+        os.makedirs(os.path.join(OUT, 'evidence'), exist_ok=True)
+        with open(os.path.join(OUT, 'evidence', self.pid + '.json'), 'w') as f:
             json.dump(ev, f, indent=1, default=str)
             f.write('\n')
         for l in lines:
